@@ -489,6 +489,6 @@ def gen_inputs(tier, rng):
     for scn in scenarios():
         d = {"scn": scn, "probe": "all"}
         if tier == "quick":
-            d["pick"] = [rng.randrange(10 ** 6) for _ in range(6)]
+            d["pick"] = [rng.randrange(10 ** 6) for _ in range(14)]
         descs.append(d)
     return descs
